@@ -127,3 +127,53 @@ func Harness_C02_q_attacker_3() { c02Attacker(3, false) }
 // variants that differ only in the nonce label, an unsigned sub-TLV or the length of a
 // too-short ciphertext are left to the 3-message harness)
 func Harness_C02_t_attacker_4() { c02Attacker(4, true) }
+
+// Replay: an honest controller that knows the setup code pairs on one connection; the
+// adversary records its M3 and M5 and replays them verbatim on a second connection (after
+// its own M1). The proof was made for the first connection's SRP session, so nothing more
+// is stored and the replayed proof is answered with an error.
+func Harness_C02_q_replay_of_honest_exchange() {
+	w := eeNewWorld()
+	w.connect("10.0.0.2:5000")
+	honest := "10.0.0.2:5000"
+	ctrlPub, ctrlPriv, _ := ed25519.GenerateKey(nil)
+	m1 := eeTLV(pair.TagPairingMethod, byte(0), pair.TagSequence, byte(1))
+	rec, _ := eePost(w.setup, "/pair-setup", honest, m1)
+	m2 := rec.tlv()
+	if m2 == nil {
+		return
+	}
+	salt, B := m2.GetBytes(pair.TagSalt), m2.GetBytes(pair.TagPublicKey)
+	if len(salt) != 16 || len(B) == 0 || len(B) > 384 {
+		return
+	}
+	c := rcSRPClient(verif.Bytes("client-a", 32), w.dev.pin, salt, B)
+	m3 := eeTLV(pair.TagSequence, byte(3), pair.TagPublicKey, c.A, pair.TagProof, c.M1)
+	rec, _ = eePost(w.setup, "/pair-setup", honest, m3)
+	m4 := rec.tlv()
+	verif.Assert(m4 != nil && m4.GetByte(pair.TagErrCode) == 0, "honest-proof-accepted")
+	if m4 == nil || m4.GetByte(pair.TagErrCode) != 0 {
+		return
+	}
+	encKey := rcHKDF(c.K, "Pair-Setup-Encrypt-Salt", "Pair-Setup-Encrypt-Info")
+	ctrlX := rcHKDF(c.K, "Pair-Setup-Controller-Sign-Salt", "Pair-Setup-Controller-Sign-Info")
+	name := []byte("ctrl-1")
+	sig := ed25519.Sign(ctrlPriv, append(append(append([]byte{}, ctrlX...), name...), ctrlPub...))
+	sub := eeTLV(pair.TagUsername, name, pair.TagPublicKey, []byte(ctrlPub), pair.TagSignature, sig)
+	m5 := eeTLV(pair.TagSequence, byte(5), pair.TagEncryptedData, rcSeal(encKey, "PS-Msg05", sub))
+	eePost(w.setup, "/pair-setup", honest, m5)
+	verif.Assert(w.db.saves == 1, "honest-controller-is-paired")
+	saves1 := w.db.saves
+
+	// the adversary, on its own connection
+	w.connect("10.0.0.9:6000")
+	evil := "10.0.0.9:6000"
+	eePost(w.setup, "/pair-setup", evil, m1)
+	rec, _ = eePost(w.setup, "/pair-setup", evil, m3)
+	r4 := rec.tlv()
+	verif.Assert(rec.status >= 400 || (r4 != nil && r4.GetByte(pair.TagErrCode) != 0), "replayed-proof-is-answered-with-an-error")
+	verif.Assert(w.db.saves == saves1, "no-pairing-stored-without-setup-code-proof")
+	eePost(w.setup, "/pair-setup", evil, m5)
+	verif.Assert(w.db.saves == saves1, "no-pairing-stored-without-setup-code-proof")
+	verif.Reach("end")
+}
